@@ -475,6 +475,21 @@ def gen_case(rng, tier):
     nops = rng.randint(2, 30 if thorough else 12)
     reclimit = rng.choice([None, None, None, 200, 400])
     ops = []
+    if rng.random() < 0.2:
+        # grid-focused history: one XPath 3.1 parser and only well-formed calls of one family (a value x picture, an
+        # input x pattern x replacement x flags, a typed argument grid), so that the rare cell of a grid is reached
+        fam = rng.choice(['fmt', 'fmt', 'fmt', 'rx', 'fun', 'fun', 'op'])
+        for _ in range(rng.randint(6, 24 if thorough else 14)):
+            src = format_source(rng) if fam == 'fmt' else regex_source(rng) if fam == 'rx' else \
+                funcall_source(rng, '3.1') if fam == 'fun' else opcall_source(rng, '3.1')
+            probes = sorted(rng.sample(range(len(PROBES)), 3))
+            if rng.random() < 0.3:
+                ops.append({'op': 'parse', 'p': 0, 'src': src, 'kind': 'valid', 'probes': probes})
+            else:
+                ops.append({'op': 'eval', 'p': 0, 'src': src, 'kind': 'valid', 'lazy': rng.random() < 0.3,
+                            'vars': rng.random() < 0.5, 'probes': probes})
+        return {'config': {'parsers': [{'v': '3.1', 'strict': True, 'ns': True}], 'installed': installed, 'files': files,
+                           'reclimit': None, 'shared_ctx': False, 'profile': 'grid:' + fam}, 'ops': ops}
     shared_ctx = rng.random() < 0.25
     hot = rng.sample(sorted(files), min(len(files), rng.choice([1, 1, 2])))     # resources asked for again and again
     for _ in range(nops):
